@@ -148,8 +148,10 @@ def tree_eval(prog):
                 out["filing"] = msg
                 break
         out["instance-record"] = None
-        if not (g(tree, "_instance") is inst and g(x0, "_instance") == 10 and g(y, "_instance") == 1 and g(x, "_instance") == [10, 20]):
-            out["instance-record"] = "a node does not record the instance of the error filed there last (root: %r)" % (g(tree, "_instance"),)
+        # the recorded instance is a private attribute, whatever its name: the one attribute of the root that holds `inst` itself
+        rec = [k for k, v in tree.attrs.items() if v is inst]
+        if len(rec) != 1 or not (g(x0, rec[0]) == 10 and g(y, rec[0]) == 1 and g(x, rec[0]) == [10, 20]):
+            out["instance-record"] = "a node does not record the instance of the error filed there last (root attributes holding it: %r)" % (rec,)
         out["accessors"] = None
         if sorted(iter(tree)) != ["a", "a.b", "x", "y"] or not ("x" in tree) or ("z" in tree) or (0 not in x) or (1 in x):
             out["accessors"] = "`in` / iteration do not report exactly the indices that have errors (root iterates %r)" % (sorted(iter(tree)),)
@@ -160,7 +162,10 @@ def tree_eval(prog):
             tree["new"] = sub_
             if not ("new" in tree and tree["new"] is sub_ and "new" in list(iter(tree))):
                 out["accessors"] = "__setitem__ does not file the child where __contains__/__getitem__/__iter__ look"
-            ev.native(lambda: g(tree, "_contents").pop("new"))
+            # take the probe child out again, from whatever attribute holds the children (a mapping with "new" in it)
+            for _k, _v in list(tree.attrs.items()):
+                if isinstance(_v, dict) and "new" in _v:
+                    _v.pop("new")
         out["total"] = None
         totals = [(tree, 8), (x, 3), (x0, 2), (y, 1), (tree["a"], 1)]
         for node, want in totals:
